@@ -6,7 +6,7 @@ sufficiency of `fuelFor`, and the fuel-free evaluation relations used by the C31
 namespace Abra.Pratt
 
 -- ------------------------------------------------------------ one-step unfoldings (definitional)
-theorem parseBp_succ (fold : Bool) (f bp : Nat) (toks : List Tok) :
+theorem parseBp_succ (fold : FoldMode) (f bp : Nat) (toks : List Tok) :
     parseBp fold (f+1) bp toks =
     match prefixOp? fold toks with
     | some (op, rest) =>
@@ -20,7 +20,7 @@ theorem parseBp_succ (fold : Bool) (f bp : Nat) (toks : List Tok) :
       | .err => .err
       | .fuel => .fuel := rfl
 
-theorem loop_succ (fold : Bool) (f bp : Nat) (lhs : Expr) (toks : List Tok) :
+theorem loop_succ (fold : FoldMode) (f bp : Nat) (lhs : Expr) (toks : List Tok) :
     loop fold (f+1) bp lhs toks =
     match toks with
     | .lparen :: rest =>
@@ -55,7 +55,7 @@ theorem loop_succ (fold : Bool) (f bp : Nat) (lhs : Expr) (toks : List Tok) :
       | .fuel => .fuel
     | _ => .ok lhs toks := rfl
 
-theorem parseTerm_succ (fold : Bool) (f : Nat) (toks : List Tok) :
+theorem parseTerm_succ (fold : FoldMode) (f : Nat) (toks : List Tok) :
     parseTerm fold (f+1) toks =
     match skipNl toks with
     | .atom (.int n) :: rest => if n ≤ I64_MAX then .ok (.atom (.int n)) rest else .err
@@ -77,7 +77,7 @@ theorem parseTerm_succ (fold : Bool) (f : Nat) (toks : List Tok) :
       | .fuel => .fuel
     | _ => .err := rfl
 
-theorem parseList_succ (fold : Bool) (f : Nat) (close : Tok) (toks : List Tok) :
+theorem parseList_succ (fold : FoldMode) (f : Nat) (close : Tok) (toks : List Tok) :
     parseList fold (f+1) close toks =
     match skipNl toks with
     | [] => .err
@@ -97,7 +97,7 @@ theorem parseList_succ (fold : Bool) (f : Nat) (close : Tok) (toks : List Tok) :
       | .fuel => .fuel := rfl
 
 -- ------------------------------------------------------------ fuel monotonicity
-theorem mono_all (fold : Bool) : ∀ f,
+theorem mono_all (fold : FoldMode) : ∀ f,
     (∀ bp toks, parseBp fold f bp toks ≠ .fuel → parseBp fold (f+1) bp toks = parseBp fold f bp toks) ∧
     (∀ bp lhs toks, loop fold f bp lhs toks ≠ .fuel → loop fold (f+1) bp lhs toks = loop fold f bp lhs toks) ∧
     (∀ toks, parseTerm fold f toks ≠ .fuel → parseTerm fold (f+1) toks = parseTerm fold f toks) ∧
@@ -184,7 +184,7 @@ theorem skipNl_length (ts : List Tok) : (skipNl ts).length ≤ ts.length := by
   | nil => simp [skipNl]
   | cons t r ih => cases t <;> simp [skipNl] <;> omega
 
-theorem prefixOp_length {fold : Bool} {toks rest : List Tok} {op : PrefixOp}
+theorem prefixOp_length {fold : FoldMode} {toks rest : List Tok} {op : PrefixOp}
     (h : prefixOp? fold toks = some (op, rest)) : rest.length + 1 = toks.length := by
   unfold prefixOp? at h
   split at h
@@ -204,7 +204,7 @@ theorem Good.ok {α : Type} {b : Nat} {v : α} {rest : List Tok} (h : rest.lengt
 theorem Good.weaken {α : Type} {a b : Nat} {r : Res α} (h : Good a r) (hab : a ≤ b) : Good b r :=
   ⟨h.1, fun v rest e => Nat.le_trans (h.2 v rest e) hab⟩
 
-theorem fuel_all (fold : Bool) : ∀ f,
+theorem fuel_all (fold : FoldMode) : ∀ f,
     (∀ bp toks, 3 * toks.length + 2 ≤ f → Good (toks.length - 1) (parseBp fold f bp toks) ∧ (toks = [] → parseBp fold f bp toks = .err)) ∧
     (∀ bp lhs toks, 3 * toks.length + 1 ≤ f → Good toks.length (loop fold f bp lhs toks)) ∧
     (∀ toks, 3 * toks.length + 1 ≤ f → Good (toks.length - 1) (parseTerm fold f toks) ∧ (toks = [] → parseTerm fold f toks = .err)) ∧
@@ -397,31 +397,31 @@ theorem fuel_all (fold : Bool) : ∀ f,
       · intro ht; subst ht; simp [skipNl]
 
 /-- The parser model never runs out of fuel on any token list: `parseExprWith` is total. -/
-theorem fuel_suffices (fold : Bool) (toks : List Tok) : parseExprWith fold toks ≠ .fuel := by
+theorem fuel_suffices (fold : FoldMode) (toks : List Tok) : parseExprWith fold toks ≠ .fuel := by
   unfold parseExprWith fuelFor
   have hs := skipNl_length toks
   exact ((fuel_all fold _).1 0 (skipNl toks) (by omega)).1.1
 
 -- ------------------------------------------------------------ monotonicity for f ≤ g
-theorem parseBp_lift {fold : Bool} {f g bp : Nat} {toks : List Tok} {res : Res Expr}
+theorem parseBp_lift {fold : FoldMode} {f g bp : Nat} {toks : List Tok} {res : Res Expr}
     (h : parseBp fold f bp toks = res) (hne : res ≠ .fuel) (hfg : f ≤ g) : parseBp fold g bp toks = res := by
   induction hfg with
   | refl => exact h
   | step _ ih => rw [((mono_all fold _).1 bp toks (by rw [ih]; exact hne)), ih]
 
-theorem loop_lift {fold : Bool} {f g bp : Nat} {lhs : Expr} {toks : List Tok} {res : Res Expr}
+theorem loop_lift {fold : FoldMode} {f g bp : Nat} {lhs : Expr} {toks : List Tok} {res : Res Expr}
     (h : loop fold f bp lhs toks = res) (hne : res ≠ .fuel) (hfg : f ≤ g) : loop fold g bp lhs toks = res := by
   induction hfg with
   | refl => exact h
   | step _ ih => rw [((mono_all fold _).2.1 bp lhs toks (by rw [ih]; exact hne)), ih]
 
-theorem parseTerm_lift {fold : Bool} {f g : Nat} {toks : List Tok} {res : Res Expr}
+theorem parseTerm_lift {fold : FoldMode} {f g : Nat} {toks : List Tok} {res : Res Expr}
     (h : parseTerm fold f toks = res) (hne : res ≠ .fuel) (hfg : f ≤ g) : parseTerm fold g toks = res := by
   induction hfg with
   | refl => exact h
   | step _ ih => rw [((mono_all fold _).2.2.1 toks (by rw [ih]; exact hne)), ih]
 
-theorem parseList_lift {fold : Bool} {f g : Nat} {c : Tok} {toks : List Tok} {res : Res Args}
+theorem parseList_lift {fold : FoldMode} {f g : Nat} {c : Tok} {toks : List Tok} {res : Res Args}
     (h : parseList fold f c toks = res) (hne : res ≠ .fuel) (hfg : f ≤ g) : parseList fold g c toks = res := by
   induction hfg with
   | refl => exact h
